@@ -142,6 +142,23 @@ def run(tier, replay=None):
                               "last_lines": [l[:300] for l in lines[-4:]],
                               "replay_cmd": _replay_cmd(exe, last, small) if last else "VERIF_SEED=%d %s" % (r.seed, " ".join(args))},
                     fingerprint="crash")
+    # known finding C03-delete-largest-leaves-bundle-full: directed probe (bundle::max_size 3 and 4) + every guard hit of the run
+    prc, pout = vlib.sh([exe, "probe-small"], timeout=600, env={"VERIF_SEED": str(r.seed)})
+    plines = [l for l in pout.split("\n") if l]
+    pguards = [l for l in plines if " GUARD " in l and l.startswith("B ")]
+    pdone = [l for l in plines if l.startswith("PROBE-SMALL ")]
+    if prc != 0 or not pdone:
+        r.violation("probe-crash", {"kind": "the small-bundle probe crashed (bundle::max_size in {3,4})", "exit": prc,
+                                    "tail": [l[:300] for l in plines[-5:]], "replay_cmd": "%s probe-small" % exe}, fingerprint="crash")
+    for l in (pguards + guards)[:1]:
+        cid = l.split()[1]
+        skip = [x for x in plines + skips if x.startswith("SKIP " + cid)]
+        r.violation("bundle-full", {"kind": "after delete_largest(2) fewer than 2 rows were removed: size() == capacity(), the next append "
+                                            "writes behind m_bundleS/m_bundleE/m_alphas (detected on a copy of the bundle; the operation is not applied)",
+                                    "case": l[:600], "configuration": skip[0][:600] if skip else None,
+                                    "replay_cmd": "%s probe-small" % exe if l in pguards else _replay_cmd(exe, cid, small)},
+                    fingerprint="C03-delete-largest-leaves-bundle-full")
+    impl_fail += [l for l in plines if l.startswith("FAIL ")]
     for l in hbug[:1]:
         r.violation("harness", {"kind": "harness self-check failed (objective not sharp)", "case": l}, no_input=True)
     seen_f, first_f = set(), []
@@ -255,6 +272,7 @@ def run(tier, replay=None):
         ["operations that would leave size() == capacity() (same defect with ties among large errors): detected on a copy of the bundle, "
          "counted in capacity_guard_hits, the real solver is not run on such a case"]
     cov["capacity_guard_hits"] = len(guards)
+    cov["small_bundle_probe"] = pdone[0] if pdone else None
     cov["capacity_guard_samples"] = [l[:400] for l in guards[:2]] + [l[:300] for l in skips[:2]]
     cov["small_bundle_sizes_included"] = small
     r.assumptions = ["assertions are compiled out (NDEBUG) as in the library build",
